@@ -23,11 +23,12 @@
 (* related by a relabelling of data-free structure).                       *)
 (***************************************************************************)
 EXTENDS Forests, Json
-CONSTANTS N, OutliersOn, Dump
+CONSTANTS N, OutliersOn, Dump,
+          Starts          \* {} : every forest on 0..N-1 (grown from the empty one); otherwise exactly these forests
 Data == 0..(N - 1)
 VARIABLE st
-Init == st = Empty
-Next == \E d \in Data \ DataOf(st) : st' \in InsertAny(st, d, OutliersOn)
+Init == IF Starts = {} THEN st = Empty ELSE st \in Starts
+Next == IF Starts = {} THEN \E d \in Data \ DataOf(st) : st' \in InsertAny(st, d, OutliersOn) ELSE UNCHANGED st
 
 Sizes(s)     == {<<c, Cardinality(Own(s.f, c))>> : c \in s.f}
 TopSub(s)    == {<<c, SubtreeClones(s.f, c)>> : c \in Roots(s.f)}
